@@ -65,8 +65,18 @@ func lockMonitor(res *sim.Result) []finding {
 			delete(lastLock, e.Req)
 		}
 	}
-	for _, e := range res.Log {
+	endOf := map[string]int{}
+	for i, rp := range res.Responses {
+		endOf[fmt.Sprintf("r%d", i)] = rp.LastEvent
+	}
+	for pos, e := range res.Log {
 		if e.Class() != "db" {
+			continue
+		}
+		if end, ok := endOf[e.Req]; ok && end > 0 && pos >= end && e.Kind == "db.Unlock" {
+			// "before the handler returns": an Unlock issued afterwards
+			// does not balance the Lock
+			out = append(out, finding{"C09.lock-leak", e.Site, "released only after the handler returned", fmt.Sprintf("Unlock(%s) at event %d, after the handler had returned", e.Args[0], e.Seq), reqIndex(e.Req)})
 			continue
 		}
 		h := held[e.Req]
